@@ -1168,15 +1168,26 @@ func c11JKCorpus() []c11JKCase {
 
 // ---------------------------------------------------------------- RFC 7234 cache of an endpoint
 
-type c11HCCase struct {
-	Variant string   `json:"variant"` // novary vary-user vary-other vary-both nostore
-	Method  string   `json:"method"`
-	Payload bool     `json:"payload"` // payload p={{ .Subject.ID }}
-	Subs    []string `json:"subs"`
+type c11HCEp struct {
+	Variant string `json:"variant"` // novary vary-user vary-other vary-both nostore (what the server does at this url)
+	Method  string `json:"method"`
+	Auth    string `json:"auth,omitempty"` // value of the Authorization header the endpoint's strategy sets
+	Payload bool   `json:"payload"`        // payload p={{ .Subject.ID }}
 }
 
-func (c c11HCCase) body(sub string) string {
-	if c.Payload {
+type c11HCStep struct {
+	Ep  int    `json:"ep"`
+	Sub string `json:"sub"`
+	Rel string `json:"rel"`
+}
+
+type c11HCCase struct {
+	Eps   []c11HCEp   `json:"eps"`
+	Steps []c11HCStep `json:"steps"`
+}
+
+func (e c11HCEp) body(sub string) string {
+	if e.Payload {
 		return "p=" + sub
 	}
 
@@ -1184,7 +1195,7 @@ func (c c11HCCase) body(sub string) string {
 }
 
 func c11HCVary(variant string) []string {
-	switch variant {
+	switch strings.TrimSuffix(variant, "2") {
 	case "vary-user":
 		return []string{"X-User"}
 	case "vary-other":
@@ -1224,13 +1235,20 @@ func c11NewHCSrv() *c11HCSrv {
 			w.Header().Set("Vary", strings.Join(vary, ", "))
 		}
 
+		// the response is the caller's own: it depends on who asks
+		body += "@" + r.Header.Get("Authorization")
+
 		if r.Method == http.MethodPost {
 			body += "#" + string(reqBody)
 		}
 
-		if variant == "nostore" {
+		switch {
+		case strings.HasPrefix(variant, "nostore"):
 			w.Header().Set("Cache-Control", "no-store")
-		} else {
+		case r.Header.Get("Authorization") != "":
+			// RFC 7234 3.2: a response to an authenticated request is storable only with must-revalidate / public / s-maxage
+			w.Header().Set("Cache-Control", "max-age=300, must-revalidate")
+		default:
 			w.Header().Set("Cache-Control", "max-age=300")
 		}
 
@@ -1243,33 +1261,43 @@ func c11NewHCSrv() *c11HCSrv {
 
 func (h *c11HCSrv) runHC(c c11HCCase) ([]c11Obs2, *c11Sha, string) {
 	tab := &c11Sha{dig: map[string]string{}}
-	url := h.srv.URL + "/h/" + c.Variant
 
-	mc := config.MechanismConfig{
-		"endpoint": map[string]any{"url": url, "method": c.Method,
+	var protos []config.Mechanism
+
+	for i, e := range c.Eps {
+		ep := map[string]any{"url": h.srv.URL + "/h/" + e.Variant, "method": e.Method,
 			"headers":    map[string]any{"X-User": "{{ .Subject.ID }}", "X-Other": "o1"},
-			"http_cache": map[string]any{"enabled": true, "default_ttl": "5m"}},
-		"cache_ttl": "0s"}
-	if c.Payload {
-		mc["payload"] = "p={{ .Subject.ID }}"
+			"http_cache": map[string]any{"enabled": true, "default_ttl": "5m"}}
+		if e.Auth != "" {
+			ep["auth"] = map[string]any{"type": "api_key", "config": map[string]any{"in": "header", "name": "Authorization", "value": e.Auth}}
+		}
+
+		mc := config.MechanismConfig{"endpoint": ep, "cache_ttl": "0s"}
+		if e.Payload {
+			mc["payload"] = "p={{ .Subject.ID }}"
+		}
+
+		protos = append(protos, config.Mechanism{ID: fmt.Sprintf("hc%d", i), Type: "generic", Config: mc})
+		tab.sum("RFC 7234" + h.srv.URL + "/h/" + e.Variant + e.Method + e.Auth)
 	}
 
-	mf, err := NewMechanismFactory(&config.Configuration{Prototypes: &config.MechanismPrototypes{
-		Contextualizers: []config.Mechanism{{ID: "hc", Type: "generic", Config: mc}},
-	}}, zerolog.Nop(), nil, nil, nil)
+	mf, err := NewMechanismFactory(&config.Configuration{Prototypes: &config.MechanismPrototypes{Contextualizers: protos}},
+		zerolog.Nop(), nil, nil, nil)
 	if err != nil {
 		return nil, tab, "config_rejected: " + err.Error()
 	}
 
-	hc, err := mf.CreateContextualizer("", "hc", nil)
-	if err != nil {
-		return nil, tab, "config_rejected: " + err.Error()
-	}
-
-	exec := func(sub string, cch cache.Cache) (string, int) {
+	exec := func(i int, sub string, cch cache.Cache) (string, int) {
 		h.mu.Lock()
 		h.calls = 0
 		h.mu.Unlock()
+
+		id := fmt.Sprintf("hc%d", i)
+
+		hc, err := mf.CreateContextualizer("", id, nil)
+		if err != nil {
+			return "err:" + err.Error(), 0
+		}
 
 		req := httptest.NewRequest(http.MethodGet, "http://heimdall.local/resource", nil)
 		if cch != nil {
@@ -1281,7 +1309,7 @@ func (h *c11HCSrv) runHC(c c11HCCase) ([]c11Obs2, *c11Sha, string) {
 
 		if err := hc.Execute(ctx, &subject.Subject{ID: sub, Attributes: map[string]any{}}); err != nil {
 			out = "err:" + err.Error()
-		} else if m, ok := ctx.Outputs()["hc"].(map[string]any); ok {
+		} else if m, ok := ctx.Outputs()[id].(map[string]any); ok {
 			out, _ = m["b"].(string)
 		}
 
@@ -1295,58 +1323,91 @@ func (h *c11HCSrv) runHC(c c11HCCase) ([]c11Obs2, *c11Sha, string) {
 
 	var obs []c11Obs2
 
-	for _, sub := range c.Subs {
+	for _, st := range c.Steps {
 		before := len(shared.gets)
 		o := c11Obs2{}
-		o.Out, o.Calls = exec(sub, shared)
+		o.Out, o.Calls = exec(st.Ep, st.Sub, shared)
 
 		if len(shared.gets) > before {
 			o.Key, o.Hit = shared.gets[before].Key, shared.gets[before].Hit
 		}
 
-		o.Fresh, _ = exec(sub, nil)
+		o.Fresh, _ = exec(st.Ep, st.Sub, nil)
 		obs = append(obs, o)
 	}
-
-	tab.sum("RFC 7234" + url + c.Method)
 
 	return obs, tab, ""
 }
 
 func (h *c11HCSrv) coqHC(c c11HCCase, obs []c11Obs2, tab *c11Sha, status string) string {
-	url := h.srv.URL + "/h/" + c.Variant
-
 	if status != "" {
-		return "(HC [] (hcc \"rejected\" \"\" [] false) [(hrq [] \"\", ob2 (Some \"rejected\") false 0 OErr OErr)])"
+		return "(HC [] [] [((hcc \"rejected\" \"\" \"\", hrq [] \"\"), ob2 (Some \"rejected\") false 0 OErr OErr)])"
 	}
 
-	out := func(s string) string {
-		if strings.HasPrefix(s, "err:") {
-			return "OErr"
-		}
+	seen := map[string]bool{}
 
-		return "(OAllow (res (snt " + vf.CoqStr(url) + " " + vf.CoqStr(c.Method) + " [] [] \"\" " + vf.CoqStr(s) + ") \"\" []))"
+	var world []string
+
+	for _, e := range c.Eps {
+		url := h.srv.URL + "/h/" + e.Variant
+		if !seen[url] {
+			seen[url] = true
+			world = append(world, vf.CoqPair(vf.CoqStr(url), vf.CoqPair(vf.CoqStrs(c11HCVary(e.Variant)), vf.CoqBool(!strings.HasPrefix(e.Variant, "nostore")))))
+		}
 	}
 
 	var steps []string
 
-	for i, sub := range c.Subs {
-		hdrs := vf.CoqList([]string{vf.CoqPair(vf.CoqStr("X-Other"), vf.CoqStr("o1")), vf.CoqPair(vf.CoqStr("X-User"), vf.CoqStr(sub))})
+	for i, st := range c.Steps {
+		e := c.Eps[st.Ep]
+		url := h.srv.URL + "/h/" + e.Variant
+		out := func(s string) string {
+			if strings.HasPrefix(s, "err:") {
+				return "OErr"
+			}
+
+			return "(OAllow (res (snt " + vf.CoqStr(url) + " " + vf.CoqStr(e.Method) + " [] [] \"\" " + vf.CoqStr(s) + ") \"\" []))"
+		}
+		hdrs := vf.CoqList([]string{vf.CoqPair(vf.CoqStr("X-Other"), vf.CoqStr("o1")), vf.CoqPair(vf.CoqStr("X-User"), vf.CoqStr(st.Sub))})
 		o := obs[i]
-		steps = append(steps, vf.CoqPair(vf.CoqApp("hrq", hdrs, vf.CoqStr(c.body(sub))), vf.CoqApp("ob2", c11OptKey(o.Key), vf.CoqBool(o.Hit), vf.CoqNat(o.Calls), out(o.Out), out(o.Fresh))))
+		steps = append(steps, vf.CoqPair(
+			vf.CoqPair(vf.CoqApp("hcc", vf.CoqStr(url), vf.CoqStr(e.Method), vf.CoqStr(e.Auth)), vf.CoqApp("hrq", hdrs, vf.CoqStr(e.body(st.Sub)))),
+			vf.CoqApp("ob2", c11OptKey(o.Key), vf.CoqBool(o.Hit), vf.CoqNat(o.Calls), out(o.Out), out(o.Fresh))))
 	}
 
-	return vf.CoqApp("HC", c11CoqSha(tab), vf.CoqApp("hcc", vf.CoqStr(url), vf.CoqStr(c.Method), vf.CoqStrs(c11HCVary(c.Variant)),
-		vf.CoqBool(c.Variant != "nostore")), vf.CoqList(steps))
+	return vf.CoqApp("HC", c11CoqSha(tab), vf.CoqList(world), vf.CoqList(steps))
 }
 
 func c11GenHC(r *vf.Rand) c11HCCase {
-	c := c11HCCase{Variant: vf.Pick(r, []string{"novary", "vary-user", "vary-user", "vary-other", "vary-both", "nostore"}),
-		Method: vf.Pick(r, []string{"GET", "GET", "POST", "POST"}), Payload: r.Chance(60)}
-	n := 2 + r.Intn(4)
+	ep := func() c11HCEp {
+		return c11HCEp{Variant: vf.Pick(r, []string{"novary", "novary", "vary-user", "vary-other", "vary-both", "nostore"}),
+			Method: vf.Pick(r, []string{"GET", "GET", "GET", "POST"}), Payload: r.Chance(50),
+			Auth: vf.Pick(r, []string{"", "", "Bearer k1", "Bearer k22"})}
+	}
+	c := c11HCCase{Eps: []c11HCEp{ep()}}
+
+	if r.Chance(60) {
+		// a second endpoint that differs from the first in exactly one component of the key (or not at all)
+		e := c.Eps[0]
+
+		switch r.Intn(5) {
+		case 0:
+			e.Auth = c11Other(r, []string{"", "Bearer k1", "Bearer k22"}, e.Auth)
+		case 1:
+			e.Method = map[string]string{"GET": "POST", "POST": "GET"}[e.Method]
+		case 2:
+			e.Variant += "2" // another url with the same behaviour
+		case 3:
+			e = ep()
+		}
+
+		c.Eps = append(c.Eps, e)
+	}
+
+	n := 2 + r.Intn(5)
 
 	for i := 0; i < n; i++ {
-		c.Subs = append(c.Subs, vf.Pick(r, c11SubIDs))
+		c.Steps = append(c.Steps, c11HCStep{Ep: r.Intn(len(c.Eps)), Sub: vf.Pick(r, c11SubIDs), Rel: "step"})
 	}
 
 	return c
@@ -1470,7 +1531,10 @@ func TestVerifC11Keys(t *testing.T) {
 	emitHC := func(stream string, c c11HCCase) {
 		if vf.Want(idx) {
 			obs, tab, status := hs.runHC(c)
-			tags := []string{"kind:http-cache", "variant:" + c.Variant, "method:" + c.Method, fmt.Sprintf("payload:%t", c.Payload), fmt.Sprintf("steps:%d", len(c.Subs))}
+			tags := []string{"kind:http-cache", fmt.Sprintf("endpoints:%d", len(c.Eps)), fmt.Sprintf("steps:%d", len(c.Steps))}
+			for _, e := range c.Eps {
+				tags = append(tags, "variant:"+e.Variant, "method:"+e.Method, fmt.Sprintf("payload:%t", e.Payload), fmt.Sprintf("authorization:%t", e.Auth != ""))
+			}
 
 			for _, o := range obs {
 				tags = append(tags, "site:http-cache:lookup")
@@ -1498,12 +1562,24 @@ func TestVerifC11Keys(t *testing.T) {
 		emitCC("corpus", c)
 	}
 
-	// C11-F8 and its finding-free neighbours
-	emitHC("corpus", c11HCCase{Variant: "novary", Method: "GET", Subs: []string{"alice", "bobby", "alice"}})
-	emitHC("corpus", c11HCCase{Variant: "vary-other", Method: "GET", Subs: []string{"alice", "bobby"}})
-	emitHC("corpus", c11HCCase{Variant: "vary-user", Method: "GET", Subs: []string{"alice", "bobby", "alice"}})
-	// C11-F9: POST answered from the cache although the body differs
-	emitHC("corpus", c11HCCase{Variant: "novary", Method: "POST", Payload: true, Subs: []string{"alice", "bobby"}})
+	// the RFC 7234 cache: finding-free neighbours first, then the witnesses of C11-F8 and C11-F9 (fixed by 12fdf68)
+	one := func(v, m string, payload bool, subs ...string) c11HCCase {
+		c := c11HCCase{Eps: []c11HCEp{{Variant: v, Method: m, Payload: payload}}}
+		for _, s := range subs {
+			c.Steps = append(c.Steps, c11HCStep{Sub: s, Rel: "step"})
+		}
+
+		return c
+	}
+	emitHC("corpus", one("novary", "GET", false, "alice", "bob", "alice"))
+	emitHC("corpus", one("vary-other", "GET", false, "alice", "bob"))
+	emitHC("corpus", one("vary-user", "GET", false, "alice", "bob", "alice"))
+	emitHC("corpus", one("novary", "POST", true, "alice", "bob"))
+	// two endpoints that differ only in the Authorization header their strategy sets, and two urls
+	emitHC("corpus", c11HCCase{Eps: []c11HCEp{{Variant: "novary", Method: "GET", Auth: "Bearer k1"}, {Variant: "novary", Method: "GET", Auth: "Bearer k22"},
+		{Variant: "novary", Method: "GET"}, {Variant: "novary2", Method: "GET", Auth: "Bearer k1"}},
+		Steps: []c11HCStep{{Ep: 0, Sub: "alice", Rel: "first"}, {Ep: 1, Sub: "alice", Rel: "diff:authorization"}, {Ep: 2, Sub: "alice", Rel: "diff:authorization"},
+			{Ep: 3, Sub: "alice", Rel: "diff:url"}, {Ep: 0, Sub: "bob", Rel: "same-endpoint"}}})
 
 	for _, c := range c11JFCorpus() {
 		emitJF("corpus", c)
